@@ -19,6 +19,7 @@ RULE = ('Histories over {original, deepcopy, dill round trip} of one model (up t
         'compared with a fresh compile. Third part: circular models (finish(circular=True)) original vs copies, compared with a fresh '
         'model. Fourth part: array formulas whose constant-array value is folded into the cell function, entered over a larger '
         'range (padding with #N/A) with dependents on the padded cells: original vs deepcopy vs dill vs copies of copies. Non-trivial = at least two objects are used with different inputs before the observed call; distinct by history.')
+RULE += (' ARRAY-STATE: collapse value x padding value (falsy and truthy, 10 each, thinned) of the array subclass x deepcopy / dill / chain, observed through collapse((1,1)) and reshape((3,3)).')
 ASSUMPTIONS = ['a copy carries no cells/books (the repo\'s __getstate__ drops them): re-finishing a copy is only required not to disturb the other objects',
                'circular models are compared with a fresh model only (their exact marking is C10)']
 WATCHDOG_S = 240
@@ -186,6 +187,35 @@ def check_arraypad(case):
     return R(fails, nt=len(used) >= 2, n=max(n, 1), labels=['arraypad', 'arraypad:%dx%d' % (h, w)])
 
 
+ARRAY_STATE_VALUES = [0.0, 0, '', False, 5.0, 'x', True, ['E', '#VALUE!'], ['E', '#N/A'], None]
+
+
+def check_array_state(case):
+    """The array subclass of results carries two instance attributes (the value a non-1x1 array collapses to when it is
+    fitted into one cell, and the padding value); a deep copy, a dill copy and copies of copies behave like the original
+    when they are collapsed or padded afterwards, whatever those values are (falsy ones included)."""
+    dec = lambda v: sut.to_repo(sut.Err(v[1])) if isinstance(v, list) else v
+    cv, dv = dec(ARRAY_STATE_VALUES[case['cv']]), dec(ARRAY_STATE_VALUES[case['dv']])
+    a = sut.get_functions()['ARRAY']([1.0, 2.0], [3.0, 4.0])
+    if cv is not None:
+        a._collapse_value = cv
+    if dv is not None:
+        a._default = dv
+    show = lambda x: repr(sut.matrix(x))
+    exp = (show(a.collapse((1, 1))), show(a.reshape((3, 3))))
+    fails = []
+    obj = a
+    for how in case['chain']:
+        obj = H.do_copy(obj, how)
+        got = (show(obj.collapse((1, 1))), show(obj.reshape((3, 3))))
+        if got != exp:
+            fails.append(('array-state|%s|%s' % (how, 'collapse' if got[0] != exp[0] else 'padding'),
+                          'array with collapse value %r and padding %r: after %s collapse((1,1)) / reshape((3,3)) give %s, the original %s' % (
+                              cv, dv, '+'.join(case['chain']), got, exp)))
+            break
+    return R(fails, nt=(cv is not None or dv is not None), labels=['array-state'])
+
+
 def op_kind(case, name):
     for op in case['ops']:
         if op[0] == 'copy' and op[2] == name:
@@ -200,6 +230,8 @@ def check_case(case):
         return c08.check_sparse(case)
     if k == 'arraypad':
         return check_arraypad(case)
+    if k == 'array-state':
+        return check_array_state(case)
     if k == 'history':
         return check_history(case)
     if k == 'fcopy':
@@ -252,5 +284,8 @@ def parts(tier, seed):
     q = tier == 'quick'
     return [('hyp', 'histories', 480 if q else 6000, 8), ('hyp', 'fcopies', 160 if q else 4000, 10), ('hyp', 'circ', 64 if q else 1500, 4),
             ('hyp', 'arraypad', 160 if q else 3000, 10), ('enum', 'sparse-ranges-on-copies', _sparse_copies(), 3, False),
+            ('enum', 'array-state', [{'k': 'array-state', 'cv': i, 'dv': j, 'chain': ch} for i in range(len(ARRAY_STATE_VALUES))
+                                     for j in range(len(ARRAY_STATE_VALUES)) if (i + j) % 3 == 0 or i == 9 or j == 9
+                                     for ch in (['deepcopy'], ['dill'], ['dill', 'deepcopy', 'dill'])], 20, False),
             ('enum', 'copies-before-solve-circular', [{'k': 'circ-late', 'i': i, 'copies': cp, 'order': o} for i in range(5)
                                                       for cp in (['deepcopy'], ['dill'], ['deepcopy', 'dill']) for o in (0, 1)], 2, False)]
